@@ -7,23 +7,27 @@ open Pox.OF Pox.OF.OfMatch
 
 /-! ## sortedness -/
 
-theorem sorted_of_map_eq {t t' : Table EData} (h : t'.map Entry.effectivePriority = t.map Entry.effectivePriority)
-    (hs : Sorted t) : Sorted t' := by
-  rw [sorted_iff_desc] at hs ⊢
+/-- the table is sorted by descending effective priority of the code variant `cfg` -/
+abbrev SortedC (cfg : Cfg) (t : Table EData) : Prop := SortedBy cfg.key t
+
+theorem sorted_of_map_eq {cfg : Cfg} {t t' : Table EData} (h : t'.map cfg.key = t.map cfg.key)
+    (hs : SortedC cfg t) : SortedC cfg t' := by
+  unfold SortedC at *
+  rw [sortedBy_iff_desc] at hs ⊢
   rw [h]; exact hs
 
-theorem sorted_filter (p : FEntry → Bool) {t : Table EData} (hs : Sorted t) : Sorted (t.filter p) :=
-  sorted_sublist List.filter_sublist hs
+theorem sorted_filter {cfg : Cfg} (p : FEntry → Bool) {t : Table EData} (hs : SortedC cfg t) : SortedC cfg (t.filter p) :=
+  List.Pairwise.sublist List.filter_sublist hs
 
-theorem map_eff_map (f : FEntry → FEntry) (hf : ∀ e, (f e).effectivePriority = e.effectivePriority) (t : Table EData) :
-    (t.map f).map Entry.effectivePriority = t.map Entry.effectivePriority := by
+theorem map_eff_map (cfg : Cfg) (f : FEntry → FEntry) (hf : ∀ e, cfg.key (f e) = cfg.key e) (t : Table EData) :
+    (t.map f).map cfg.key = t.map cfg.key := by
   rw [List.map_map]
   apply List.map_congr_left
   intro e _
   exact hf e
 
-theorem map_eff_modifyFirst (p : FEntry → Bool) (f : FEntry → FEntry) (hf : ∀ e, (f e).effectivePriority = e.effectivePriority)
-    (t : Table EData) : (modifyFirst p f t).map Entry.effectivePriority = t.map Entry.effectivePriority := by
+theorem map_eff_modifyFirst (cfg : Cfg) (p : FEntry → Bool) (f : FEntry → FEntry) (hf : ∀ e, cfg.key (f e) = cfg.key e)
+    (t : Table EData) : (modifyFirst p f t).map cfg.key = t.map cfg.key := by
   induction t with
   | nil => rfl
   | cons x r ih =>
@@ -32,10 +36,10 @@ theorem map_eff_modifyFirst (p : FEntry → Bool) (f : FEntry → FEntry) (hf : 
     · simp [hf x]
     · simp [ih]
 
-theorem touch_eff (len now : Nat) (e : FEntry) : (touch len now e).effectivePriority = e.effectivePriority := rfl
+theorem touch_eff (cfg : Cfg) (len now : Nat) (e : FEntry) : cfg.key (touch len now e) = cfg.key e := rfl
 
-theorem setActions_eff (e : FEntry) (a : List Action) :
-    ({ e with data := { e.data with actions := a } } : FEntry).effectivePriority = e.effectivePriority := rfl
+theorem setActions_eff (cfg : Cfg) (e : FEntry) (a : List Action) :
+    cfg.key ({ e with data := { e.data with actions := a } } : FEntry) = cfg.key e := rfl
 
 theorem addBase_sublist (s : State) (fm : FlowModMsg) : (addBase s fm).Sublist s.table := by
   unfold addBase
@@ -43,10 +47,10 @@ theorem addBase_sublist (s : State) (fm : FlowModMsg) : (addBase s fm).Sublist s
   · exact List.filter_sublist
   · exact List.Sublist.refl _
 
-theorem addBase_sorted (s : State) (fm : FlowModMsg) (hs : Sorted s.table) : Sorted (addBase s fm) :=
-  sorted_sublist (addBase_sublist s fm) hs
+theorem addBase_sorted (s : State) (fm : FlowModMsg) (hs : SortedC s.cfg s.table) : SortedC s.cfg (addBase s fm) :=
+  List.Pairwise.sublist (addBase_sublist s fm) hs
 
-theorem flowModAdd_sorted (s : State) (fm : FlowModMsg) (hs : Sorted s.table) : Sorted (flowModAdd s fm).1.table := by
+theorem flowModAdd_sorted (s : State) (fm : FlowModMsg) (hs : SortedC s.cfg s.table) : SortedC s.cfg (flowModAdd s fm).1.table := by
   unfold flowModAdd flowModFailed
   split
   · exact hs
@@ -54,23 +58,23 @@ theorem flowModAdd_sorted (s : State) (fm : FlowModMsg) (hs : Sorted s.table) : 
     · exact hs
     · split
       · exact addBase_sorted s fm hs
-      · exact addEntry_sorted _ _ (addBase_sorted s fm hs)
+      · exact addEntryBy_sorted _ _ _ (addBase_sorted s fm hs)
 
-theorem flowModModify_sorted (s : State) (fm : FlowModMsg) (strict : Bool) (hs : Sorted s.table) :
-    Sorted (flowModModify s fm strict).1.table := by
+theorem flowModModify_sorted (s : State) (fm : FlowModMsg) (strict : Bool) (hs : SortedC s.cfg s.table) :
+    SortedC s.cfg (flowModModify s fm strict).1.table := by
   unfold flowModModify
   simp only
   split
   · apply sorted_of_map_eq _ hs
-    apply map_eff_map
+    apply map_eff_map s.cfg
     intro e
     split
     · rfl
     · rfl
   · exact flowModAdd_sorted s fm hs
 
-theorem flowModDelete_sorted (s : State) (fm : FlowModMsg) (strict : Bool) (hs : Sorted s.table) :
-    Sorted (flowModDelete s fm strict).1.table := sorted_filter _ hs
+theorem flowModDelete_sorted (s : State) (fm : FlowModMsg) (strict : Bool) (hs : SortedC s.cfg s.table) :
+    SortedC s.cfg (flowModDelete s fm strict).1.table := sorted_filter _ hs
 
 /-! ### the buffer tail of `_rx_flow_mod` touches only the pool -/
 
@@ -100,7 +104,8 @@ theorem flowModStep_maxEntries (s : State) (fm : FlowModMsg) :
 theorem flowModStep_cfg (s : State) (fm : FlowModMsg) : (flowModStep s fm).1.cfg = (flowModHandler s fm).1.cfg :=
   (bufferTail_frame _ fm).2.2.2
 
-theorem flowModHandler_sorted (s : State) (fm : FlowModMsg) (hs : Sorted s.table) : Sorted (flowModHandler s fm).1.table := by
+theorem flowModHandler_sorted (s : State) (fm : FlowModMsg) (hs : SortedC s.cfg s.table) :
+    SortedC s.cfg (flowModHandler s fm).1.table := by
   unfold flowModHandler
   split
   · exact flowModAdd_sorted s fm hs
@@ -110,26 +115,21 @@ theorem flowModHandler_sorted (s : State) (fm : FlowModMsg) (hs : Sorted s.table
   · exact flowModDelete_sorted s fm true hs
   · exact hs
 
-theorem step_sorted (s : State) (op : Op) (hs : Sorted s.table) : Sorted (step s op).1.table := by
+theorem step_sorted (s : State) (op : Op) (hs : SortedC s.cfg s.table) : SortedC s.cfg (step s op).1.table := by
   cases op with
   | flowMod fm =>
-    show Sorted (flowModStep s fm).1.table
+    show SortedC s.cfg (flowModStep s fm).1.table
     rw [flowModStep_table]
     exact flowModHandler_sorted s fm hs
   | packet p inPort len =>
     simp only [step, packetStep]
     split
-    · exact sorted_of_map_eq (map_eff_modifyFirst _ _ (touch_eff len s.now) _) hs
+    · exact sorted_of_map_eq (map_eff_modifyFirst s.cfg _ _ (touch_eff s.cfg len s.now) _) hs
     · exact hs
   | advance dt => exact hs
   | sweep => exact sorted_filter _ hs
   | flowStats m o => exact hs
   | aggStats m o => exact hs
-
-theorem run_sorted (s : State) (ops : List Op) (hs : Sorted s.table) : Sorted (run s ops).1.table := by
-  induction ops generalizing s with
-  | nil => exact hs
-  | cons op ops ih => exact ih _ (step_sorted s op hs)
 
 /-- the state after each prefix of a history -/
 theorem run_append (s : State) (ops ops' : List Op) : (run s (ops ++ ops')).1 = (run (run s ops).1 ops').1 := by
@@ -139,28 +139,28 @@ theorem run_append (s : State) (ops ops' : List Op) : (run s (ops ++ ops')).1 = 
 
 /-! ## the overlap scan on a sorted table -/
 
-theorem overlapScan_sorted (prio : Nat) (m : OfMatch) (t : Table EData) (hs : Sorted t) :
-    overlapScan prio m t =
-      t.any (fun e => e.effectivePriority == prio && overlapsWith e.mtch m) := by
+theorem overlapScan_sorted (cfg : Cfg) (prio : Nat) (m : OfMatch) (t : Table EData) (hs : SortedC cfg t) :
+    overlapScan cfg.key prio m t =
+      t.any (fun e => cfg.key e == prio && overlapsWith e.mtch m) := by
   induction t with
   | nil => rfl
   | cons e r ih =>
     have hs' := List.pairwise_cons.mp hs
     simp only [overlapScan, List.any_cons]
-    by_cases h1 : e.effectivePriority < prio
-    · have hne : (e.effectivePriority == prio) = false := by simp; omega
+    by_cases h1 : cfg.key e < prio
+    · have hne : (cfg.key e == prio) = false := by simp; omega
       simp only [h1, if_true, hne, Bool.false_and, Bool.false_or]
       symm
       rw [List.any_eq_false]
       intro x hx
       have := hs'.1 x hx
-      have hne' : (x.effectivePriority == prio) = false := by simp; omega
+      have hne' : (cfg.key x == prio) = false := by simp; omega
       simp [hne']
-    · by_cases h2 : e.effectivePriority > prio
-      · have hne : (e.effectivePriority == prio) = false := by simp; omega
+    · by_cases h2 : cfg.key e > prio
+      · have hne : (cfg.key e == prio) = false := by simp; omega
         simp only [h1, if_false, h2, if_true, hne, Bool.false_and, Bool.false_or]
         exact ih hs'.2
-      · have heq : (e.effectivePriority == prio) = true := by simp; omega
+      · have heq : (cfg.key e == prio) = true := by simp; omega
         simp only [h1, if_false, h2, heq, Bool.true_and]
         cases hc : overlapsWith e.mtch m
         · simp [ih hs'.2]
@@ -241,7 +241,7 @@ theorem flowModAdd_mem (s : State) (fm : FlowModMsg) (e : FEntry) (he : e ∈ (f
     · exact .inl he
     · split at he
       · exact .inl ((addBase_sublist s fm).subset he)
-      · rcases (mem_addEntry _ _ _).mp he with rfl | h
+      · rcases (mem_addEntryBy _ _ _ _).mp he with rfl | h
         · exact .inr ⟨rfl, by simpa using ‹¬ fm.flags.testBit FF_EMERG = true›⟩
         · exact .inl ((addBase_sublist s fm).subset h)
 
@@ -276,13 +276,13 @@ theorem flowModModify_clocks (s : State) (fm : FlowModMsg) (strict : Bool) (e' :
     `created` unchanged — or, only for a flow-mod, the entry just created (`created = last_touched = now`, counters zero). -/
 theorem step_clocks (s : State) (op : Op) (e' : FEntry) (he' : e' ∈ (step s op).1.table) :
     Kept s e' ∨
-    (∃ p inPort len, op = .packet p inPort len ∧ ∃ e ∈ s.table, e.accepts (fromPacket p inPort) = true ∧ e' = touch len s.now e) ∨
+    (∃ p inPort len, op = .packet p inPort len ∧ ∃ e ∈ s.table, e.accepts (s.cfg.mv.fromPacket p inPort) = true ∧ e' = touch len s.now e) ∨
     (∃ fm, op = .flowMod fm ∧ e' = mkEntry s.cfg s.now fm ∧ fm.flags.testBit FF_EMERG = false) := by
   cases op with
   | flowMod fm =>
     have fin : Kept s e' ∨ (e' = mkEntry s.cfg s.now fm ∧ fm.flags.testBit FF_EMERG = false) → (Kept s e' ∨
         (∃ p inPort len, Op.flowMod fm = .packet p inPort len ∧
-          ∃ e ∈ s.table, e.accepts (fromPacket p inPort) = true ∧ e' = touch len s.now e) ∨
+          ∃ e ∈ s.table, e.accepts (s.cfg.mv.fromPacket p inPort) = true ∧ e' = touch len s.now e) ∨
         (∃ fm', Op.flowMod fm = .flowMod fm' ∧ e' = mkEntry s.cfg s.now fm' ∧ fm'.flags.testBit FF_EMERG = false)) :=
       fun h => h.elim Or.inl (fun h => Or.inr (Or.inr ⟨fm, rfl, h⟩))
     have he'' : e' ∈ (flowModHandler s fm).1.table := by rw [← flowModStep_table]; exact he'
@@ -346,6 +346,19 @@ theorem step_cfg (s : State) (op : Op) : (step s op).1.cfg = s.cfg := by
   | sweep => rfl
   | flowStats m o => rfl
   | aggStats m o => rfl
+
+theorem run_cfg (s : State) (ops : List Op) : (run s ops).1.cfg = s.cfg := by
+  induction ops generalizing s with
+  | nil => rfl
+  | cons op ops ih => simp only [run]; rw [ih, step_cfg]
+
+theorem run_sorted (s : State) (ops : List Op) (hs : SortedC s.cfg s.table) : SortedC s.cfg (run s ops).1.table := by
+  induction ops generalizing s with
+  | nil => exact hs
+  | cons op ops ih =>
+    have := ih (step s op).1 (by rw [step_cfg]; exact step_sorted s op hs)
+    rw [step_cfg] at this
+    exact this
 
 theorem step_now_le (s : State) (op : Op) : s.now ≤ (step s op).1.now := by
   cases op with
